@@ -5,6 +5,7 @@
 //! every message zbus writes, answers `AddMatch` / `RemoveMatch` itself (recording them) and hands every
 //! other method call to the scenario, which decides what is *released* to the read half and when.
 //! Nothing here runs concurrently: everything happens on the thread that polls.
+#![allow(dead_code)]
 use std::{
     collections::VecDeque,
     io,
@@ -184,7 +185,7 @@ impl FakeBus {
             let endian = if bytes[0] == b'l' { Endian::Little } else { Endian::Big };
             let data = Data::new(bytes, Context::new_dbus(endian, 0));
             // SAFETY: the bytes were produced by zbus itself.
-            let msg = unsafe { Message::from_bytes(data) }.expect("client wrote an unparsable message");
+            let msg = unsafe { Message::from_bytes(data) }.expect("HARNESS: client wrote an unparsable message");
             self.on_message(msg);
         }
         progressed
